@@ -157,6 +157,10 @@ OTHER_MUTATIONS = [
      '    [] Kind(j) = "jlist" -> N("tuple", "", [i \\in DOMAIN Kids(j) |-> Deser(Kids(j)[i])])',
      '    [] Kind(j) = "jlist" -> N("tuple", "", [i \\in DOMAIN Kids(j) |-> N(SubSeq(Kind(Kids(j)[i]), 2, Len(Kind(Kids(j)[i]))), Atom(Kids(j)[i]), <<>>)])',
      'I_RoundTrip', None),
+    ('a str-mixin enum member used as a dict key is written by its qualified name', 'TaskTrees.tla', 'TaskValues.cfg',
+     'IF i % 2 = 1 THEN JStr(KeyStr(ks[i])) ELSE Ser(ks[i])]', 'IF i % 2 = 1 THEN JStr(Atom(ks[i])) ELSE Ser(ks[i])]', 'I_RoundTrip', None),
+    ('delete removes the key directory but keeps its files', 'StorageSeq.tla', 'StorageSeq_gen.cfg',
+     'IF x[1] = k THEN Absent ELSE s.data[x]]]', 's.data[x]]]', 'DataOnlyInDirs', None),
     ('the key directory is not required to be a child of the storage directory', 'LocalPaths.tla', 'LocalPaths_quick.cfg',
      "KeyOk(kts) == ~KeyErr(kts) /\\ Parent(KeyPath(kts)) = S", "KeyOk(kts) == ~KeyErr(kts)", 'I_NothingOutside', None),
     ('the filename is not resolved before the parent check (symlinks followed afterwards)', 'LocalPaths.tla', 'LocalPaths_quick.cfg',
